@@ -394,7 +394,20 @@ def summarise(ctx, f, loop, path, kind):
 
 
 def message_cursor(ctx, f, loop):
-    """encoder: name compared with len(BITS) in the loop test; decoder: index of stores into the output bits"""
+    """encoder: the name that indexes the message bits and is incremented in the loop body (role by data flow);
+    fallback: the name compared with len(BITS) in the loop test"""
+    body = [nd for nd in f.nodes if loop.hid in nd.loops]
+    incremented = {d.name for nd in body for d in nd.defs if d.kind == 'aug'}
+    used = set()
+    for nd in body:
+        for r in ctx.roots(nd):
+            for s in ast.walk(r):
+                if isinstance(s, ast.Subscript) and isinstance(s.value, ast.Name) and s.value.id == 'binary_message':
+                    for x in ast.walk(s.slice):
+                        if isinstance(x, ast.Name) and x.id in incremented:
+                            used.add(x.id)
+    if len(used) == 1:
+        return used.pop()
     header = f.nodes[loop.hid]
     if header.kind == 'while':
         t = f.term(header.ast, header)
@@ -1157,17 +1170,105 @@ def r_loop_test(ctx):
             run.undecided('R-TIGHT', f, '%s:loop-test' % loop.mode, head.lineno, 'coder loop is not a while loop')
             continue
         t = f.term(head.ast, head)
-        atoms = flatten_cond(t, True)
-        ok = False
-        if len(atoms) == 1:
-            a, pol = atoms[0]
+
+        def base(x):
             if loop.mode == 'normal':
-                ok = a[0] == 'cmp' and a[1] == '==' and a[3] == ('c', '0') and a[2][0] == 'v' and not pol
-            else:
-                ok = a[0] == 'cmp' and a[1] == '<' and pol and a[2][0] == 'v' and is_call(a[3], 'builtins.len') and \
-                    a[3][2] == (('v', 'binary_message', 'P'),)
+                return x[0] == 'cmp' and x[1] in ('==', '!=') and x[3] == ('c', '0') and x[2][0] == 'v'
+            return x[0] == 'cmp' and x[1] in ('<', '<=') and is_call(x[3], 'builtins.len') and x[3][2] == (('v', 'binary_message', 'P'),)
+        bases = [x for x in walk_term(t) if base(x)]
+        if not bases:
+            run.undecided('R-TIGHT', f, '%s:loop-ends-when-message-consumed' % loop.mode, head.lineno,
+                          'message-consumed test not recognised in %s' % show(t)[:80])
+            continue
+        b = bases[0]
+        # value of the base atom when the message is consumed / not consumed
+        if loop.mode == 'normal':
+            consumed_val = (b[1] == '==')
+        else:
+            consumed_val = False
+        v_cons = feval(t, lambda x: consumed_val if x == b else UNKNOWN)
+        v_left = feval(t, lambda x: (not consumed_val) if x == b else UNKNOWN)
+        ok = v_cons is False and v_left is True
         run.check(ok, 'R-TIGHT', f, '%s:loop-ends-when-message-consumed' % loop.mode, head.lineno,
                   'the loop test is exactly the message-consumed test',
                   "the %s-mode loop of encode runs while %s: the walk can continue (or stop) independently of the message "
                   "being consumed, so the strand may end on a nucleotide that carries no information" % (loop.mode, show(t)[:100]),
                   inputs='graphs with out-degree-1 vertices (threshold 1)')
+
+
+def r_msg(ctx):
+    """the message enters and leaves the coder untouched"""
+    run = ctx.run
+    run.rule('R-MSG', "encode's normal-mode variant starts as bit_to_number(binary_message) (decimal string), its fast-mode "
+                      "cursor starts at 0; decode's normal-mode result is array(number_to_bit(<Horner accumulator>, bit_length)), "
+                      "its fast-mode output has shape (bit_length,), starts as zeros and its cursor starts at 0")
+    enc = ctx.p.func('dsw.spiderweb.encode')
+    dec = ctx.p.func('dsw.spiderweb.decode')
+    bm = ('v', 'binary_message', 'P')
+    for loop in coder_loops(ctx, enc):
+        head = enc.nodes[loop.hid]
+        body = {n.id for n in enc.nodes if loop.hid in n.loops}
+        t = enc.term(head.ast, head)
+        name = None
+        for x in walk_term(t):
+            if x[0] == 'v' and isinstance(x[2], tuple):
+                name = x[1]
+                break
+        if name is None:
+            run.undecided('R-MSG', enc, '%s:initial' % loop.mode, head.lineno, 'loop variable not found in %s' % show(t)[:60])
+            continue
+        init = [enc.defs[i] for i in enc.reaching(head.id, name) if enc.defs[i].node not in body]
+        its = [TermBuilder(enc, d.node).def_term(d.id) for d in init]
+        if loop.mode == 'normal':
+            ok = bool(its) and all(i is not None and call_name(i) and call_name(i).endswith('.bit_to_number') and
+                                   call_arg(i, 0, 'bit_array') == bm and call_arg(i, 1, 'is_string') in (None, ('c', True))
+                                   for i in its)
+            run.check(ok, 'R-MSG', enc, 'normal:variant-starts-as-message-value', head.lineno,
+                      'variant = bit_to_number(binary_message)',
+                      'the normal-mode variant `%s` starts as %s, not as the decimal value of the whole message'
+                      % (name, [show(i)[:60] if i else None for i in its]), inputs='every message')
+        else:
+            ok = bool(its) and all(i == ('c', 0) for i in its)
+            run.check(ok, 'R-MSG', enc, 'fast:cursor-starts-at-0', head.lineno, 'cursor starts at 0',
+                      'the fast-mode cursor `%s` starts at %s' % (name, [show(i)[:30] if i else None for i in its]),
+                      inputs='every message in fast mode')
+    # decode: what is returned
+    bl = ('v', 'bit_length', 'P')
+    rets = list(dec.stmts(ast.Return))
+    for r in rets:
+        t = dec.term(r.stmt.value, r)
+        alts = dec.alternatives(t) if t[0] == 'v' else None
+        terms = [a for _, a in alts] if alts else [t]
+        kinds = []
+        for a in terms:
+            if a is None:
+                kinds.append(('opaque', None))
+            elif is_call(a, 'numpy.array', 'numpy.asarray') and a[2] and call_name(a[2][0]) and \
+                    call_name(a[2][0]).endswith('.number_to_bit'):
+                nb = a[2][0]
+                kinds.append(('normal', call_arg(nb, 1, 'bit_length') == bl and call_arg(nb, 0, 'decimal_number') is not None
+                              and call_arg(nb, 0, 'decimal_number')[0] == 'v'))
+            elif is_call(a, 'numpy.zeros'):
+                sh = call_arg(a, 0, 'shape')
+                kinds.append(('fast', sh == ('tuple', bl) or sh == bl))
+            else:
+                kinds.append(('opaque', None))
+        for kind, ok in kinds:
+            if kind == 'opaque':
+                continue
+            run.check(bool(ok), 'R-MSG', dec, '%s:result-has-requested-length' % kind, r.lineno,
+                      'the result is rendered / allocated at bit_length',
+                      'decode\'s %s-mode result is not rendered at the requested bit_length (%s)' % (kind, show(t)[:80]),
+                      inputs='every strand')
+        run.floor('R-MSG', 'recognised result forms of decode', sum(1 for k, _ in kinds if k != 'opaque'), 2)
+    for loop in coder_loops(ctx, dec):
+        if loop.mode != 'fast':
+            continue
+        body = {n.id for n in dec.nodes if loop.hid in n.loops}
+        cursors = {d.name for n in dec.nodes if n.id in body for d in n.defs if d.kind == 'aug'}
+        for c in sorted(cursors):
+            init = [dec.defs[i] for i in dec.reaching(loop.hid, c) if dec.defs[i].node not in body]
+            its = [TermBuilder(dec, d.node).def_term(d.id) for d in init]
+            run.check(bool(its) and all(i == ('c', 0) for i in its), 'R-MSG', dec, 'fast:cursor-starts-at-0', dec.nodes[loop.hid].lineno,
+                      'output cursor starts at 0', 'the fast-mode output cursor `%s` starts at %s' % (c, [show(i) if i else None for i in its]),
+                      inputs='every strand in fast mode')
